@@ -47,11 +47,40 @@ type Case struct {
 	// subdivided around ids it no longer holds, removals fold those subdivisions back, and the
 	// peer still holds (part of) the pre-removal content with identical hashes.
 	Build int `json:"build"`
+	// E > 0: head number E stands for the EMPTY head "" (on whichever side uses it).
+	E int `json:"e,omitempty"`
+	// Rep > 0: every "one Set call" fill (build mode 0, the fresh side and the initial fill
+	// of mode 3) passes a list in which every Rep-th element (id order) occurs twice, first
+	// with a stale head; the last occurrence is the one that counts.
+	Rep int `json:"rep,omitempty"`
 }
 
 var headTab = []string{"a", "b", "ab", "ba", "b0", "a~"}
 
 func head(k int) string { return headTab[(k-1)%len(headTab)] }
+
+func (c Case) head(k int) string {
+	if k == c.E {
+		return ""
+	}
+	return head(k)
+}
+
+// fill is the "one Set call" build: setmodel.Fresh, or with c.Rep > 0 the same call with
+// repeated ids in the list.
+func fill(c Case, s setmodel.Set) ldiff.Diff {
+	if c.Rep <= 0 || len(s) == 0 {
+		return setmodel.Fresh(c.DF, c.TH, s)
+	}
+	final := s.ElementsByID()
+	var list []ldiff.Element
+	for i := 0; i < len(final); i += c.Rep {
+		list = append(list, ldiff.Element{Id: final[i].Id, Head: "stale-" + final[i].Head})
+	}
+	d := ldiff.New(c.DF, c.TH)
+	d.Set(append(list, final...)...)
+	return d
+}
 
 // ---- building the two sides ------------------------------------------------------------
 
@@ -66,10 +95,10 @@ func materialise(c Case) (ids []string, a, b setmodel.Set) {
 		seen[id] = true
 		ids = append(ids, id)
 		if i < len(c.A) && c.A[i] > 0 {
-			a[id] = head(c.A[i])
+			a[id] = c.head(c.A[i])
 		}
 		if i < len(c.B) && c.B[i] > 0 {
-			b[id] = head(c.B[i])
+			b[id] = c.head(c.B[i])
 		}
 	}
 	return
@@ -78,7 +107,7 @@ func materialise(c Case) (ids []string, a, b setmodel.Set) {
 func build(c Case, ids []string, s setmodel.Set) ldiff.Diff {
 	switch c.Build {
 	case 0:
-		return setmodel.Fresh(c.DF, c.TH, s)
+		return fill(c, s)
 	case 1:
 		d := ldiff.New(c.DF, c.TH)
 		for _, id := range ids {
@@ -119,10 +148,10 @@ func buildFolded(c Case, ids []string, s, other setmodel.Set) (d ldiff.Diff, fol
 		if h, ok := other[id]; ok {
 			pre[id] = h
 		} else {
-			pre[id] = head(1)
+			pre[id] = c.head(1)
 		}
 	}
-	d = setmodel.Fresh(c.DF, c.TH, pre)
+	d = fill(c, pre)
 	cur := pre.Hashes()
 	for _, id := range ids {
 		if _, ok := s[id]; ok {
@@ -165,7 +194,7 @@ func cachedBuild(c Case, ids []string, side []int, s setmodel.Set) ldiff.Diff {
 	if len(c.Ids) > 4 {
 		return build(c, ids, s)
 	}
-	key := fmt.Sprint(c.DF, c.TH, c.Build, c.Ids, side)
+	key := fmt.Sprint(c.DF, c.TH, c.Build, c.E, c.Rep, c.Ids, side)
 	if d, ok := buildCache[key]; ok {
 		return d
 	}
@@ -436,6 +465,29 @@ func run(c Case) (vstat.Outcome, error) {
 		out.Classes = append(out.Classes, "equal-sets")
 	}
 	out.Classes = append(out.Classes, fmt.Sprintf("build-%d", c.Build))
+	emptyAny, emptyChanged := false, false
+	for id, h := range ma {
+		if h == "" {
+			emptyAny = true
+		}
+		if rh, ok := mb[id]; ok && rh != h && (rh == "" || h == "") {
+			emptyChanged = true
+		}
+	}
+	for _, h := range mb {
+		if h == "" {
+			emptyAny = true
+		}
+	}
+	if emptyAny {
+		out.Classes = append(out.Classes, "head-empty")
+	}
+	if emptyChanged {
+		out.Classes = append(out.Classes, "head-empty-vs-other-head")
+	}
+	if c.Rep > 0 && (c.Build == 0 || c.Build == 3) {
+		out.Classes = append(out.Classes, "fill-with-repeated-ids")
+	}
 	if folded >= 2 {
 		out.Classes = append(out.Classes, "history-multi-level-fold")
 		switch {
@@ -547,7 +599,7 @@ func enumerate(yield func(Case) bool) {
 							if k%shards != shard {
 								continue
 							}
-							if !yield(Case{DF: df, TH: th, Ids: u, A: a, B: b, Build: bm}) {
+							if !yield(Case{DF: df, TH: th, Ids: u, A: a, B: b, Build: bm, E: (df + th + ui) % 2, Rep: (df + ui) % 3}) {
 								return
 							}
 						}
@@ -572,6 +624,8 @@ func genCase(rt *rapid.T) Case {
 		c.TH = rapid.IntRange(1, 70).Draw(rt, "thAny")
 	}
 	c.Build = rapid.SampledFrom([]int{0, 0, 1, 2, 2, 3, 3}).Draw(rt, "build")
+	c.E = rapid.SampledFrom([]int{0, 0, 0, 1, 2, 3, 4, 5, 6}).Draw(rt, "emptyHead")
+	c.Rep = rapid.SampledFrom([]int{0, 0, 0, 1, 2, 5}).Draw(rt, "rep")
 	if rapid.IntRange(0, 3).Draw(rt, "foldScenario") == 0 {
 		return genFold(rt, c)
 	}
@@ -710,7 +764,7 @@ func genFold(rt *rapid.T, c Case) Case {
 func TestExhaustive(t *testing.T) { vstat.Enumerate(t, prop, enumerate, run) }
 func TestRandom(t *testing.T)     { vstat.Check(t, prop, genCase, run) }
 func TestReplay(t *testing.T) {
-	for _, name := range []string{"TestExhaustive", "TestRandom", "TestRegEmptyHashTakenAsEqual", "TestRegPositionInAlignmentRemainder", "TestRegHistoryBuiltIndexes", "TestRegFoldedHistoryStaleRanges"} {
+	for _, name := range []string{"TestExhaustive", "TestRandom", "TestRegEmptyHashTakenAsEqual", "TestRegPositionInAlignmentRemainder", "TestRegHistoryBuiltIndexes", "TestRegFoldedHistoryStaleRanges", "TestRegEmptyHeads", "TestRegRepeatedIdInFill"} {
 		t.Run(name, func(t *testing.T) { vstat.Replay(t, prop, name, run) })
 	}
 }
@@ -751,4 +805,22 @@ func TestRegFoldedHistoryStaleRanges(t *testing.T) {
 	vstat.One(t, prop, Case{DF: 2, TH: 1, Ids: skewed4, A: []int{1, 0, 0, 0}, B: []int{1, 1, 0, 0}, Build: 3}, run)
 	vstat.One(t, prop, Case{DF: 16, TH: 2, Ids: skewed4, A: []int{1, 2, 0, 0}, B: []int{1, 2, 1, 0}, Build: 3}, run)
 	vstat.One(t, prop, Case{DF: 4, TH: 3, Ids: skewed4, A: []int{1, 2, 0, 1}, B: []int{1, 2, 2, 1}, Build: 3}, run)
+}
+
+// Seeded change C07-a5 (compareElementsGreater using "" for "id absent"): an id both sides
+// hold, with the empty head on the remote side / the local side / both sides (the ranges
+// differ through a second id). Passes on a correct tree: "" is a head like any other, the
+// smallest in string order.
+func TestRegEmptyHeads(t *testing.T) {
+	two := skewed4[:2]
+	vstat.One(t, prop, Case{DF: 2, TH: 1, Ids: two, A: []int{2, 1}, B: []int{1, 2}, E: 1}, run)  // remote "" / local ""
+	vstat.One(t, prop, Case{DF: 16, TH: 8, Ids: two, A: []int{1, 1}, B: []int{1, 2}, E: 1}, run) // "" on both sides, neighbour differs
+	vstat.One(t, prop, Case{DF: 3, TH: 2, Ids: skewed4, A: []int{1, 2, 0, 1}, B: []int{2, 1, 1, 1}, E: 1, Build: 2}, run)
+}
+
+// Seeded change C08-a5 (Set on an empty container skips the remove-before-insert lookup):
+// a fill list that repeats an id; the last occurrence counts.
+func TestRegRepeatedIdInFill(t *testing.T) {
+	vstat.One(t, prop, Case{DF: 2, TH: 1, Ids: skewed4, A: []int{1, 2, 1, 0}, B: []int{1, 2, 1, 2}, Rep: 1}, run)
+	vstat.One(t, prop, Case{DF: 16, TH: 2, Ids: skewed4, A: []int{1, 1, 0, 0}, B: []int{1, 1, 1, 1}, Rep: 2, Build: 3}, run)
 }
